@@ -764,6 +764,8 @@ def check_slice_positions(P, ctx):
                 return L
             if nm == 'Range_Len':
                 return len(E)
+            if nm == 'c_int' and e[2] and ir.top_nocast(it.N.canon(e[2][0])) == ('arrow', RNG, 'value'):
+                return it.atoms[CUR]
             if nm == 'iter_init':
                 return 0 if L > 0 else -1
             if nm == 'iter_last':
